@@ -499,6 +499,19 @@ def op_check_snapshot(s, a):
     e2 = rel_err(rho, ptrace(ref, [2] * s.N, [q]), floor=1.0)
     if not e2 <= max(s.tol, 1e-7):
         raise Violation("copy-aliased", cls=s.cls, what="partial_trace", err=e2)
+    if s.cls not in ("Circuit", "CircuitDense"):
+        # MPS simulators answer local questions through a recorded orthogonality centre: the held copy's record must be its
+        # own (asking the copy moves *its* centre only; the live circuit is asked again by later rules)
+        q2 = (a[0] // 7) % s.N
+        G = A.make_matrix(a[0], "gauss", 2, 2, "complex128")
+        want = np.vdot(ref, embed(G, [2] * s.N, [q2]) @ ref)
+        got = complex(c.local_expectation(G, q2))
+        e3 = rel_err(np.array(got), np.array(want), floor=np.linalg.norm(G))
+        if not e3 <= max(s.tol, 1e-7):
+            raise Violation("copy-aliased", cls=s.cls, what="local_expectation", err=e3)
+        f = float(np.real(c.fidelity_estimate()))
+        if abs(f - 1.0) > 1e-6:
+            raise Violation("copy-aliased", cls=s.cls, what="fidelity_estimate", got=f)
     s.ops.add("check_snapshot")
 
 
